@@ -53,7 +53,7 @@ def _case(draw, tier):
             "select_form": draw(st.sampled_from(["entity", "entity", "set_of"])),
             # the membership test alone, or combined with another condition on the outer variable
             "combo": draw(st.sampled_from(["alone", "alone", "or_cond_first", "or_cond_first", "or_cond_last", "and_cond_first",
-                                           "and_cond_last", "not_and_cond_first", "parent_cond_first", "parent_cond_first"])),
+                                           "and_cond_last", "not_and_cond_first", "parent_cond_first", "parent_cond_first", "two_memberships"])),
             # (parent_cond_first: a condition on the PARENT variable comes first, so the concatenation is evaluated once per
             # qualifying parent, over that parent's inner collection only - "preserving any outer bindings")
             "parent_cond": ["cmp", draw(st.sampled_from([">=", "==", "<", "!="])), ["attr", ["var", 0], draw(st.sampled_from(["a", "b"]))],
@@ -108,6 +108,8 @@ def check(case) -> Outcome:
         m = member(oval(o)) != bool(case["negate"])
         if combo == "alone":
             return m
+        if combo == "two_memberships":
+            return m and member(oval(o))      # a second membership test against a second concatenation over the same parents
         if combo == "parent_cond_first":
             return any(A.eval_cond(case["parent_cond"], {0: p_}) and
                        ((oval(o) in _inner(p_, case["inner"])) != bool(case["negate"])) for p_ in parents)
@@ -183,7 +185,11 @@ def check(case) -> Outcome:
             cond = in_(item, c) if case["form"] == "in_" else contains(c, item)
             if case["negate"]:
                 cond = not_(cond) if case["neg_spelling"] == "not_" else ~cond
-            if combo == "parent_cond_first":
+            if combo == "two_memberships":
+                from entity_query_language import and_
+                c2 = concatenate(_expr(V[0], case["inner"]))
+                cond = and_(cond, in_(item, c2) if case["form"] == "in_" else contains(c2, item))
+            elif combo == "parent_cond_first":
                 from entity_query_language import and_
                 cond = and_(build_cond(case["parent_cond"], [V[0]]), cond)
             elif combo != "alone":
